@@ -649,7 +649,7 @@ class KnownValue(Value):
         elif isinstance(self.val, type):
             return f"type {get_fully_qualified_name(self.val)!r}"
         else:
-            return f"Literal[{self.val!r}]"
+            return f"Literal[{stable_repr(self.val)}]"
 
     def substitute_typevars(self, typevars: TypeVarMap) -> "KnownValue":
         if not typevars or not callable(self.val):
@@ -2088,12 +2088,12 @@ class MultiValuedValue(Value):
         if not others:
             if has_none:
                 literals.append(KnownValue(None))
-            body = ", ".join(repr(val.val) for val in literals)
+            body = ", ".join(stable_repr(val.val) for val in literals)
             return f"Literal[{body}]"
         else:
             elements = [str(val) for val in others]
             if literals:
-                body = ", ".join(repr(val.val) for val in literals)
+                body = ", ".join(stable_repr(val.val) for val in literals)
                 elements.append(f"Literal[{body}]")
             if has_none:
                 elements.append("None")
@@ -3332,6 +3332,14 @@ def stable_iteration_order(container: Iterable[T]) -> Iterable[T]:
         return sorted(container, key=sort_key)
     except Exception:
         return list(container)
+
+
+def stable_repr(obj: object) -> str:
+    """Like repr(), but lists the members of a set in a stable order."""
+    if isinstance(obj, (set, frozenset)) and obj and type(obj) in (set, frozenset):
+        body = ", ".join(stable_repr(member) for member in stable_iteration_order(obj))
+        return f"{{{body}}}" if isinstance(obj, set) else f"frozenset({{{body}}})"
+    return repr(obj)
 
 
 def replace_known_sequence_value(value: Value) -> Value:
